@@ -579,6 +579,164 @@ def store_engine(pid, spec, tier, seed, workdir, res):
                                results=[pretty_line(impl[k])[:120] for k in sorted(impl) if k[0] == first][:8]))
 
 
+# ---------------------------------------------------------------- the atomicity engine (C15)
+
+def canon_strace(path):
+    """segments of the traced little program -> canonical system-call names"""
+    pending = {}
+    lines = []
+    for raw in open(path, errors='replace'):
+        m = re.match(r'^(\d+)\s+(.*)$', raw.rstrip())
+        if not m:
+            continue
+        pid, rest = m.group(1), m.group(2)
+        if rest.endswith('<unfinished ...>'):
+            pending[pid] = rest[:-len('<unfinished ...>')]
+            continue
+        r = re.match(r'<\.\.\. \w+ resumed>(.*)$', rest)
+        if r and pid in pending:
+            rest = pending.pop(pid) + r.group(1)
+        lines.append(rest)
+    segs, cur, fds = {}, None, {}
+    for l in lines:
+        mk = re.match(r'write\(1, "MARK-(\w+)', l)
+        if mk:
+            cur = mk.group(1)
+            segs[cur] = []
+            continue
+        if cur is None or cur == 'END':
+            continue
+        m = re.match(r'openat\((\d+|AT_FDCWD), "([^"]*)", ([A-Z_|0-9]+)(?:, \d+)?\)\s+= (-?\d+)', l)
+        if m:
+            name, flags, fd = m.group(2), m.group(3), int(m.group(4))
+            base = name.rsplit('/', 1)[-1]
+            if fd < 0 or 'O_DIRECTORY' in flags or '/proc' in name or '/sys' in name or name.startswith('/dev'):
+                continue
+            tmp = base.startswith('.tmp-')
+            if 'O_EXCL' in flags and 'O_CREAT' in flags:
+                segs[cur].append('open_excl_tmp' if tmp else 'open_excl_final'); fds[fd] = 1
+            elif 'O_TRUNC' in flags or 'O_CREAT' in flags or 'O_WRONLY' in flags or 'O_RDWR' in flags:
+                segs[cur].append('open_write_' + ('tmp' if tmp else 'final') + ('_trunc' if 'O_TRUNC' in flags else '')); fds[fd] = 1
+            elif 'verif' in name or not name.startswith('/'):
+                segs[cur].append('open_read_' + ('tmp' if tmp else 'final')); fds[fd] = 1
+            continue
+        m = re.match(r'(write|read|fsync|close|ftruncate)\((\d+)', l)
+        if m and int(m.group(2)) in fds:
+            op = m.group(1)
+            if op == 'read' and segs[cur] and segs[cur][-1] == 'read':
+                continue
+            if op == 'write' and segs[cur] and segs[cur][-1] == 'write':
+                continue
+            segs[cur].append(op)
+            if op == 'close':
+                fds.pop(int(m.group(2)), None)
+            continue
+        m = re.match(r'renameat2?\((?:\d+|AT_FDCWD), "([^"]*)", (?:\d+|AT_FDCWD), "([^"]*)"', l)
+        if m:
+            a, b = m.group(1).rsplit('/', 1)[-1], m.group(2).rsplit('/', 1)[-1]
+            segs[cur].append('rename_%s_%s' % ('tmp' if a.startswith('.tmp-') else 'final', 'tmp' if b.startswith('.tmp-') else 'final'))
+            continue
+        m = re.match(r'unlinkat\((?:\d+|AT_FDCWD), "([^"]*)"', l)
+        if m:
+            segs[cur].append('unlink_' + ('tmp' if m.group(1).rsplit('/', 1)[-1].startswith('.tmp-') else 'final'))
+    return segs
+
+
+def atomic_engine(pid, spec, tier, seed, workdir, res):
+    known = load_known()
+    out = os.path.join(workdir, 'atomic')
+    os.makedirs(out, exist_ok=True)
+    rc, log = run_harness('TestAtomicity', dict(VERIF_SEED=str(seed), VERIF_TIER=tier), out, timeout=3400)
+    if rc != 0 or not os.path.exists(os.path.join(out, 'atomic.txt')):
+        res['errors'].append('atomicity harness failed: ' + log[-1500:])
+        return
+    kinds = res['distribution']
+    for l in open(os.path.join(out, 'atomic.txt')):
+        t = l.split()
+        res['evaluations'] += 1
+        kinds['exp:' + t[0]] = kinds.get('exp:' + t[0], 0) + 1
+        res['nontrivial'].add(hashlib.sha1(l.rsplit(' ', 1)[0].encode()).hexdigest())
+        if len(res['samples']) < 4 and (t[0] != 'CUT' or 'limit=3 ' in l):
+            res['samples'].append(l.strip())
+        if t[-1] == 'BAD':
+            code = 'C15:' + t[0].lower()
+            if not known_open(pid, code, known):
+                res['violations'].append(dict(kind='monitor', code=code, case=l.strip()[:80],
+                                              payload=dict(experiment=l.strip(), meaning='CUT: child process wrote under RLIMIT_FSIZE=limit; KILL: writer killed; STORM: concurrent operations checked with porcupine')))
+    # system-call programs
+    rc, log = run_harness('TestSyscallProgram', {}, out, timeout=600)
+    rc2, o, e = sh('echo SYSCALLS | ./modelbin', cwd=MODEL)
+    want = {}
+    for l in o.splitlines():
+        t = l.split()
+        want[t[0]] = t[1:]
+    for enc in ('0', '1'):
+        p = os.path.join(out, 'strace-%s.txt' % enc)
+        if not os.path.exists(p) or os.path.getsize(p) == 0:
+            res['errors'].append('no strace output (strace missing or failed): ' + log[-300:])
+            continue
+        segs = canon_strace(p)
+        got = {'SET': segs.get('SET1'), 'SET(overwrite)': segs.get('SET2'), 'GET': segs.get('GET'), 'DELETE': segs.get('DEL')}
+        res['extra'].setdefault('syscall_programs', {})['enc=' + enc] = got
+        for name, prog in got.items():
+            res['traces_validated'] += 1
+            exp = want[name.split('(')[0]]
+            if prog != exp:
+                res['mismatches'].append(dict(case='syscalls-' + name, exchange=0, why='system-call program differs from the model',
+                                              payload=dict(operation=name, encryption=enc, observed=prog, model=exp)))
+
+
+def encrypt_engine(pid, spec, tier, seed, workdir, res):
+    """C17: experiments on the encrypted backend + the wiring grid compared with the model (Crypto.from_url)."""
+    known = load_known()
+    out = os.path.join(workdir, 'encrypt')
+    os.makedirs(out, exist_ok=True)
+    rc, log = run_harness('TestEncryption', dict(VERIF_SEED=str(seed), VERIF_TIER=tier), out, timeout=3400)
+    if rc != 0 or not os.path.exists(os.path.join(out, 'encrypt.txt')):
+        res['errors'].append('encryption harness failed: ' + log[-1500:])
+        return
+    kinds = res['distribution']
+    wires = []
+    for l in open(os.path.join(out, 'encrypt.txt')):
+        t = l.split()
+        if not t:
+            continue
+        res['evaluations'] += 1
+        kinds['exp:' + t[0]] = kinds.get('exp:' + t[0], 0) + 1
+        res['nontrivial'].add(hashlib.sha1(l.encode()).hexdigest())
+        if t[0] == 'WIRE':
+            wires.append(t)
+            continue
+        if len(res['samples']) < 5 and t[0] in ('TAMPER', 'CONFIG', 'TRANSPORT') and kinds['exp:' + t[0]] <= 2:
+            res['samples'].append(l.strip())
+        if t[-1] == 'BAD':
+            code = 'C17:' + t[0].lower()
+            if not known_open(pid, code, known):
+                res['violations'].append(dict(kind='monitor', code=code, case=l.strip()[:80],
+                                              payload=dict(experiment=l.strip(), meaning='CONFIG: a way of enabling encryption; TAMPER: a modified file was accepted / wrong key / plaintext; TRANSPORT: tampered entry through the RoundTripper')))
+    # the wiring grid against the model
+    q = ''.join('ENC %s\n' % ' '.join(t[1:-1]) for t in wires)
+    rc2, o, e = sh('./modelbin', cwd=MODEL, stdin=q)
+    got = [x.split()[1] for x in o.splitlines() if x.startswith('W ')]
+    if len(got) != len(wires):
+        res['errors'].append('model wiring output: %d lines for %d queries: %s' % (len(got), len(wires), e[-300:]))
+        return
+    for t, m in zip(wires, got):
+        res['traces_validated'] += 1
+        obs = t[-1]
+        kinds['wire:' + obs.split(':')[0]] = kinds.get('wire:' + obs.split(':')[0], 0) + 1
+        requested = t[1] == 'O' or unhex(t[2]) in ('on', 'aesgcm')
+        if requested and not (obs == 'err' or obs.startswith('key:')):
+            code = 'C17:requested-but-off'
+            if not known_open(pid, code, known):
+                res['violations'].append(dict(kind='monitor', code=code, case=' '.join(t)[:80],
+                                              payload=dict(wire=' '.join(t), meaning='encryption was requested, Open succeeded and values are stored without it',
+                                                           parameters=[unhex(x) for x in t[2:-1]])))
+        if obs != m:
+            res['mismatches'].append(dict(case='wire-' + '-'.join(t[1:-1])[:60], exchange=0, why='encryption wiring differs from the model',
+                                          payload=dict(parameters=[unhex(x) for x in t[2:-1]], how=t[1], observed=obs, model=m)))
+
+
 # ---------------------------------------------------------------- replay files
 
 def write_replay(pid, name, payload):
